@@ -257,6 +257,97 @@ def build():
                  'implies(ctx.protocol_version >= (2, 0) and len(result.ancestors) == 0, result.fundamental_type is None)',
                  'implies(not (ctx.protocol_version >= (2, 0)), result.ancestors is None and result.fundamental_type is not None and result.fundamental_type == g_ref)'],
         hints={'ext_funcs': PX, 'ghost_out': ['g_ref']})
+    # input shape (session state / globals): what the decoder hands on is the sequence of elements read from the stream, in stream order, each under its own name
+    # ghost lists g_flag / g_card / g_name / g_sub: the values read for the j-th element (appended right after each read); K: one arbitrary element
+    w.refclass('Bin', {})
+    w.ext_methods['Bin.read_ui16'] = dict(params={}, returns='int', ensures=['result >= 0'], modifies=[])
+    w.ext_methods['Bin.read_ui32'] = dict(params={}, returns='int', ensures=['result >= 0'], modifies=[])
+    w.ext_methods['Bin.read_bytes'] = dict(params={'n': 'int'}, returns='Seq[int]', ensures=['len(result) == n', 'forall(0, n, lambda j: 0 <= result[j] and result[j] < 256)'], modifies=[])      # bytes, as the sequence of their values
+    w.refclass('ISD', {'tid': 'Obj', 'fields': 'Map[str,Tuple[int,Obj]]', 'fields_list': 'Seq[Tuple[str,Obj]]', 'flags': 'Map[str,int]', 'cardinalities': 'Map[str,Cardinality]'}, SER, 'InputShapeDesc')
+    PXB = {k: dict(v, params=dict(v['params'], desc='Bin')) for k, v in PX.items()}
+    LAST = 'forall(K + 1, %s, lambda j: g_name[j] != g_name[K])'
+    def ISD_INV(n, fl, f, fg, c):
+        return ['len(g_flag) == %s and len(g_card) == %s and len(g_name) == %s and len(g_sub) == %s and len(%s) == %s' % (n, n, n, n, fl, n),
+                'forall(0, %s, lambda j: %s[j] == (g_name[j], g_sub[j]))' % (n, fl),
+                'implies(0 <= K and K < %s, g_name[K] in %s and g_name[K] in %s)' % (n, f, fg),
+                'implies(0 <= K and K < %s and %s, %s[g_name[K]] == (K, g_sub[K]) and %s[g_name[K]] == g_flag[K])' % (n, LAST % n, f, fg),
+                'implies(0 <= K and K < %s and %s, implies(g_name[K] in %s, %s[g_name[K]] == g_card[K]))' % (n, LAST % n, c, c),
+                # the element read last, ground (decided both ways)
+                'implies(%s > 0, %s[g_name[%s - 1]] == (%s - 1, g_sub[%s - 1]) and %s[g_name[%s - 1]] == g_flag[%s - 1])' % (n, f, n, n, n, fg, n, n)]
+    w.contract(SER, '_parse_input_shape_descriptor', params={'_tag': 'Obj', 'desc': 'Bin', 'ctx': 'PCtx'}, returns='ISD',
+        ghost={'g_flag': 'Seq[int]', 'g_card': 'Seq[Cardinality]', 'g_name': 'Seq[str]', 'g_sub': 'Seq[Obj]', 'K': 'int'},
+        requires=['len(g_flag) == 0 and len(g_card) == 0 and len(g_name) == 0 and len(g_sub) == 0'],
+        modifies=['$alloc'], raises={'ValueError': {}},
+        ghost_after={'flag = desc.read_ui32()': [('g_flag', 'g_flag + [flag]')], 'cardinality = enums.Cardinality(desc.read_bytes(1)[0])': [('g_card', 'g_card + [cardinality]')],
+                     'name = _parse_string(desc)': [('g_name', 'g_name + [name]')], 'subtype = _parse_type_ref(desc, ctx=ctx)': [('g_sub', 'g_sub + [subtype]')]},
+        loops={0: dict(fingerprint='for idx in range(els)', index='idx', invariant=ISD_INV('idx', 'fields_list', 'input_fields', 'flags', 'cardinalities'))},
+        ensures=ISD_INV('len(g_name)', 'result.fields_list', 'result.fields', 'result.flags', 'result.cardinalities'),
+        hints={'ext_funcs': PXB, 'ghost_out': ['g_flag', 'g_card', 'g_name', 'g_sub'],
+               'var_types': {'input_fields': 'Map[str,Tuple[int,Obj]]', 'flags': 'Map[str,int]', 'cardinalities': 'Map[str,Cardinality]', 'fields_list': 'Seq[Tuple[str,Obj]]'}})
+    # second view: the quantifier-free clauses alone (lengths, the element read last, one arbitrary position of the ordered list), so that a wrong index / order is refuted
+    # with a definite counter-model instead of a solver timeout on the quantified invariant
+    def ISD_GROUND(n, fl, f, fg, c):
+        return ['len(g_flag) == %s and len(g_card) == %s and len(g_name) == %s and len(g_sub) == %s and len(%s) == %s' % (n, n, n, n, fl, n),
+                'implies(0 <= K and K < %s, %s[K] == (g_name[K], g_sub[K]))' % (n, fl),
+                'implies(%s > 0, %s[g_name[%s - 1]] == (%s - 1, g_sub[%s - 1]) and %s[g_name[%s - 1]] == g_flag[%s - 1])' % (n, f, n, n, n, fg, n, n)]
+    w.contract(SER, '_parse_input_shape_descriptor', view='last', params={'_tag': 'Obj', 'desc': 'Bin', 'ctx': 'PCtx'}, returns='ISD',
+        ghost={'g_flag': 'Seq[int]', 'g_card': 'Seq[Cardinality]', 'g_name': 'Seq[str]', 'g_sub': 'Seq[Obj]', 'K': 'int'},
+        requires=['len(g_flag) == 0 and len(g_card) == 0 and len(g_name) == 0 and len(g_sub) == 0'],
+        modifies=['$alloc'], raises={'ValueError': {}},
+        ghost_after={'flag = desc.read_ui32()': [('g_flag', 'g_flag + [flag]')], 'cardinality = enums.Cardinality(desc.read_bytes(1)[0])': [('g_card', 'g_card + [cardinality]')],
+                     'name = _parse_string(desc)': [('g_name', 'g_name + [name]')], 'subtype = _parse_type_ref(desc, ctx=ctx)': [('g_sub', 'g_sub + [subtype]')]},
+        loops={0: dict(fingerprint='for idx in range(els)', index='idx', invariant=ISD_GROUND('idx', 'fields_list', 'input_fields', 'flags', 'cardinalities'))},
+        ensures=ISD_GROUND('len(g_name)', 'result.fields_list', 'result.fields', 'result.flags', 'result.cardinalities'),
+        hints={'ext_funcs': PXB, 'ghost_out': ['g_flag', 'g_card', 'g_name', 'g_sub'],
+               'var_types': {'input_fields': 'Map[str,Tuple[int,Obj]]', 'flags': 'Map[str,int]', 'cardinalities': 'Map[str,Cardinality]', 'fields_list': 'Seq[Tuple[str,Obj]]'}})
+    # output shape: each element read from the stream is filed under its own name -- type, flags, cardinality and (protocol >= 2.0) source type; the shape's object type is
+    # read only when the shape is not an ephemeral free shape.  (dict order = stream order is not modelled: the maps are unordered here.)
+    w.refclass('SHD', {'tid': 'Obj', 'type': 'Opt[Obj]', 'fields': 'Map[str,Obj]', 'flags': 'Map[str,int]', 'cardinalities': 'Map[str,Cardinality]', 'sources': 'Map[str,Obj]'}, SER, 'ShapeDesc')
+    def SHD_INV(n, f, fg, c, so, quant=True):
+        last = ['implies(%s > 0, %s[g_name[%s - 1]] == g_sub[%s - 1] and %s[g_name[%s - 1]] == g_flag[%s - 1] and %s[g_name[%s - 1]] == g_card[%s - 1])' % (n, f, n, n, fg, n, n, c, n, n),
+                'implies(%s > 0 and ctx.protocol_version >= (2, 0), %s[g_name[%s - 1]] == g_src[%s - 1])' % (n, so, n, n)]
+        out = ['len(g_flag) == %s and len(g_card) == %s and len(g_name) == %s and len(g_sub) == %s' % (n, n, n, n), 'implies(ctx.protocol_version >= (2, 0), len(g_src) == %s)' % n]
+        if quant:
+            out += ['implies(0 <= K and K < %s, g_name[K] in %s and g_name[K] in %s and g_name[K] in %s)' % (n, f, fg, c),
+                    'implies(0 <= K and K < %s and %s, %s[g_name[K]] == g_sub[K] and %s[g_name[K]] == g_flag[K] and %s[g_name[K]] == g_card[K])' % (n, LAST % n, f, fg, c),
+                    'implies(0 <= K and K < %s and %s and ctx.protocol_version >= (2, 0), g_name[K] in %s and %s[g_name[K]] == g_src[K])' % (n, LAST % n, so, so)]
+        return out + last
+    for view, quant in ((None, True), ('last', False)):
+        w.contract(SER, '_parse_shape_descriptor', view=view, params={'_tag': 'Obj', 'desc': 'Bin', 'ctx': 'PCtx'}, returns='SHD',
+            ghost={'g_flag': 'Seq[int]', 'g_card': 'Seq[Cardinality]', 'g_name': 'Seq[str]', 'g_sub': 'Seq[Obj]', 'g_src': 'Seq[Obj]', 'K': 'int', 'g_eph': 'bool', 'g_ot': 'Obj'},
+            requires=['len(g_flag) == 0 and len(g_card) == 0 and len(g_name) == 0 and len(g_sub) == 0 and len(g_src) == 0'],
+            modifies=['$alloc'], raises={'ValueError': {}},
+            ghost_after={'flag = desc.read_ui32()': [('g_flag', 'g_flag + [flag]')], 'cardinality = enums.Cardinality(desc.read_bytes(1)[0])': [('g_card', 'g_card + [cardinality]')],
+                         'name = _parse_string(desc)': [('g_name', 'g_name + [name]')], 'subtype = _parse_type_ref(desc, ctx=ctx)': [('g_sub', 'g_sub + [subtype]')],
+                         'sources[name] = _parse_type_ref(desc, ctx=ctx)': [('g_src', 'g_src + [sources[name]]')],
+                         'ephemeral_free_shape = _parse_bool(desc)': [('g_eph', 'ephemeral_free_shape')], 'objtype = _parse_type_ref(desc, ctx=ctx)': [('g_ot', 'objtype')]},
+            loops={0: dict(fingerprint='for _ in range(els)', index='i', invariant=SHD_INV('i', 'fields', 'flags', 'cardinalities', 'sources', quant))},
+            ensures=SHD_INV('len(g_name)', 'result.fields', 'result.flags', 'result.cardinalities', 'result.sources', quant)
+                    + ['implies(ctx.protocol_version >= (2, 0) and not g_eph, result.type is not None and result.type == g_ot)',
+                       'implies(not (ctx.protocol_version >= (2, 0)) or g_eph, result.type is None)'],
+            hints={'ext_funcs': PXB, 'ghost_out': ['g_flag', 'g_card', 'g_name', 'g_sub', 'g_src', 'g_eph', 'g_ot'],
+                   'var_types': {'fields': 'Map[str,Obj]', 'flags': 'Map[str,int]', 'cardinalities': 'Map[str,Cardinality]', 'sources': 'Map[str,Obj]'}})
+    # tuples: the element types are the references read AFTER the ancestors (two consecutive reference lists in the stream); named tuples: every element under its own name
+    w.refclass('TupD', {'ancestors': 'Opt[Seq[Obj]]', 'fields': 'Seq[Obj]'}, SER, 'TupleDesc')
+    w.contract(SER, '_parse_tuple_descriptor', params={'_tag': 'Obj', 'desc': 'Bin', 'ctx': 'PCtx'}, returns='TupD', ghost={'g_anc': 'Seq[Obj]', 'g_els': 'Seq[Obj]'}, modifies=['$alloc'],
+        ghost_after={'ancestors = _parse_type_refs(desc, ctx=ctx)': [('g_anc', 'ancestors')], 'tuple_fields = _parse_type_refs(desc, ctx=ctx)': [('g_els', 'tuple_fields')]},
+        ensures=['result.fields == g_els', 'implies(ctx.protocol_version >= (2, 0), result.ancestors is not None and result.ancestors == g_anc)',
+                 'implies(not (ctx.protocol_version >= (2, 0)), result.ancestors is None)'],
+        hints={'ext_funcs': PXB, 'ghost_out': ['g_anc', 'g_els']})
+    w.refclass('NTupD', {'ancestors': 'Opt[Seq[Obj]]', 'fields': 'Map[str,Obj]'}, SER, 'NamedTupleDesc')
+    def NT_INV(n, f, quant):
+        out = ['len(g_name) == %s and len(g_sub) == %s' % (n, n), 'implies(%s > 0, %s[g_name[%s - 1]] == g_sub[%s - 1])' % (n, f, n, n)]
+        if quant: out += ['implies(0 <= K and K < %s, g_name[K] in %s)' % (n, f), 'implies(0 <= K and K < %s and %s, %s[g_name[K]] == g_sub[K])' % (n, LAST % n, f)]
+        return out
+    for view, quant in ((None, True), ('last', False)):
+        w.contract(SER, '_parse_namedtuple_descriptor', view=view, params={'_tag': 'Obj', 'desc': 'Bin', 'ctx': 'PCtx'}, returns='NTupD',
+            ghost={'g_name': 'Seq[str]', 'g_sub': 'Seq[Obj]', 'K': 'int', 'g_anc': 'Seq[Obj]'}, requires=['len(g_name) == 0 and len(g_sub) == 0'], modifies=['$alloc'],
+            ghost_after={'el_name = _parse_string(desc)': [('g_name', 'g_name + [el_name]')], 'fields[el_name] = _parse_type_ref(desc, ctx=ctx)': [('g_sub', 'g_sub + [fields[el_name]]')],
+                         'ancestors = _parse_type_refs(desc, ctx=ctx)': [('g_anc', 'ancestors')]},
+            loops={0: dict(fingerprint='for _ in range(els)', index='i', invariant=NT_INV('i', 'fields', quant))},
+            ensures=NT_INV('len(g_name)', 'result.fields', quant) + ['implies(ctx.protocol_version >= (2, 0), result.ancestors is not None and result.ancestors == g_anc)',
+                                                                     'implies(not (ctx.protocol_version >= (2, 0)), result.ancestors is None)'],
+            hints={'ext_funcs': PXB, 'ghost_out': ['g_name', 'g_sub', 'g_anc'], 'var_types': {'fields': 'Map[str,Obj]'}})
     return w
 
 # ---------------------------------------------------------------------------------------------------------------------
